@@ -60,6 +60,10 @@ def run_case(c):
             p = f(fh(sv))
             out.append([float(p.R).hex(), float(p.Z).hex(), float(fc.getDistance(p)).hex()])
         return dict(points=out, dist_si=float(fc.distance[c["si"]]).hex())
+    if c["kind"] == "sperp":
+        fc = fine(arr(c["pos"]), c["si"], c["ei"])
+        f, total = fc.interpSSperp(np.array([fh(c["vec"][0]), fh(c["vec"][1])]))
+        return dict(s_perp=hx(f.x), total=float(total).hex(), values=[float(f(fh(v))).hex() for v in c["x"]])
     if c["kind"] == "zshift":
         table = {}
         regions = {}
